@@ -56,6 +56,7 @@ class Run:
         self._cmds: list[Any] = []
         self.stops: list[dict] = []       # what on_stop listeners could see
         self.starts: list[str] = []
+        self.user_reqs: dict[str, dict] = {}   # instance id of a user-sourced UOD request -> engine flags then
 
         def serial(cmd) -> int:
             for i, c in enumerate(self._cmds):
@@ -179,6 +180,7 @@ class Run:
         from openpectus.lang.exec.tags import SystemTagName
         return {"tick": self.tick_no, "raised": raised, "events": self.log[n0:],
                 "instances": sorted(self.uod.command_instances),
+                "inst_ids": {n: c.instance_id for n, c in self.uod.command_instances.items()},
                 "sys": str(e._system_tags[SystemTagName.SYSTEM_STATE].get_value()),
                 "run_id": e._system_tags[SystemTagName.RUN_ID].get_value(),
                 "simulated": sorted(t.name for t in e.tags if getattr(t, "simulated", False)),
@@ -193,6 +195,11 @@ class Run:
                 e.inject_code(op[1])
             elif op[0] == "user":
                 e.execute_control_command_from_user(op[1])
+                if self.uod.has_command_name(op[1]):
+                    # a UOD command from the frontend's command buttons: accepted in every engine state
+                    req = list(e._command_manager.cmd_queue.queue)[-1]
+                    self.user_reqs[req.instance_id] = {"tick": self.tick_no, "started": e._runstate_started,
+                                                       "stopping": e._runstate_stopping}
             elif op[0] in ("cancel", "force"):
                 (e.cancel_instruction if op[0] == "cancel" else e.force_instruction)(op[1])
             else:
@@ -329,6 +336,7 @@ def execute(case: dict[str, Any]) -> dict[str, Any]:
                              for n in run.engine.interpreter._program.get_all_nodes()}
             out["ticks"].append(snap)
         out["log"] = list(run.log)
+        out["user_reqs"] = dict(run.user_reqs)
         out["final_instances"] = sorted(run.uod.command_instances)
         return out
     finally:
@@ -368,7 +376,8 @@ def oracle_c11(res: dict[str, Any]) -> list[tuple[str, str]]:
         fin = {ev[3] for ev in log if ev[1] == "final" and ev[0] <= t}
         for ev in log:
             if ev[1] == "init" and ev[0] <= t and ev[3] not in fin:
-                out.append(("initialised-instance-not-finalized-when-run-ends",
+                out.append(("initialised-instance-not-finalized-when-run-ends" +
+                            (":started-while-stopping" if ev[0] == t else ""),
                             f"{ev[2]} #{ev[3]} was initialised at tick {ev[0]} and is not finalized although the run "
                             f"ended at tick {t}"))
     # pairing per instance
@@ -428,7 +437,14 @@ def oracle_c10(case: dict[str, Any], res: dict[str, Any]) -> list[tuple[str, str
             init_names = [ev[2] for ev in log if ev[1] == "init" and ev[0] <= t]
             leaked = [n for n in snap["instances"] if init_names.count(n) > fin_names.count(n)]
             if leaked:
-                out.append(("instance-survives-stop", f"tick {t}: uod.command_instances = {snap['instances']}"))
+                # initialised in the very tick in which the run ended: only a command from the user's command
+                # buttons can start while Stop / Restart waits for its second phase (the interpreter does not tick)
+                fin_sers = {ev[3] for ev in log if ev[1] == "final" and ev[0] <= t}
+                open_inits = [ev for ev in log if ev[1] == "init" and ev[0] <= t and ev[3] not in fin_sers and
+                              ev[2] in leaked]
+                late = bool(open_inits) and all(ev[0] == t for ev in open_inits)
+                out.append(("instance-survives-stop" + (":started-while-stopping" if late else ""),
+                            f"tick {t}: uod.command_instances = {snap['instances']}"))
             else:
                 out.append(("uninitialised-instance-survives-stop",
                             f"tick {t}: never initialised {snap['instances']} still in uod.command_instances"))
